@@ -37,6 +37,9 @@ CHECKS = {
  "C12": dict(cat="exploration", technique="complete matrix enumeration through the real entrypoint: delegated-admin instruction x argument menu (all single-bit, all defined-subset and all-ones flag words) x bank flag presets x frozen/unfrozen, byte-level frame diff against per-role field masks; BFS over admin sequences from frozen banks; bounded-exhaustive deleverage sequences against a reference daily window",
    text="(a) Every case of interest-only / limits-only (full product) / e-mode configure and clone / setup and update emissions with 194 flag words / metadata / force-complete / group-admin configure, oracle and fixed-price calls x {bank with, without emissions} x {unfrozen, frozen} x flag presets is executed; the byte diff of every account must stay inside the signer role's field mask, and on a frozen bank weights, oracle, curve, tier, init limit and state must stay and the freeze bit must survive; (b) every admin sequence up to depth 2 (quick) / 3 (thorough) from a frozen bank keeps FREEZE_SETTINGS; (c) every sequence up to depth 3 / 4 of risk-admin deleverage transactions x 4..7 withdrawal values around whole dollars and the limit x clock advances {0, 86399, 86400, 86401} x limits {none, 1, 100}: tumbling-window whole-dollar sum <= limit, health not worse, flags cleared.",
    ref="6 C12"),
+ "C13": dict(cat="model_checking", technique="explicit-state BFS over admin configuration histories through the real entrypoint (every configuration write path, weights bracketing each boundary by one ULP); exact rational invariant on every accepted post-state, killed-state rule, and init=>maintenance implication read from the program's own risk engine on boundary portfolios",
+   text="From three roots (fresh group with a forged staked bank; a bank carrying an e-mode entry valid only against its own liability weights; a bank killed by bankruptcy) every admin sequence up to depth 2 (quick, full alphabet, ~10^6 transactions) / 3 (thorough) of configure_bank (weight pairs, single weights, tier, age, state incl. killed), configure_bank_emode, clone_emode, group leverage caps, add_bank_with_seed, edit/propagate staked settings and limits-only is executed; every accepted post-state is checked with exact rationals against the statement's inequalities for each bank whose configuration changed (e-mode leverage against that bank's liability weights and the group's caps whenever entries or liability weights were written), the killed state may neither be entered nor left, and after each depth-1 acceptance boundary portfolios (largest debt that passes the program's init check) must pass its maintenance check.",
+   ref="6 C13"),
  "C14": dict(cat="exploration", technique="complete matrix enumeration through the real entrypoint: financial instruction x bank role x operational state, and every instruction x pause situation x timing around the exact expiry second, judged by the statement's table and an observational no-movement rule",
    text="(A) every financial golden call (deposit, withdraw, withdraw-all, borrow, repay, repay-all, liquidation with asset/debt bank separately, bankruptcy, Token-2022 deposit) x each involved bank x {Paused, ReduceOnly, KilledByBankruptcy} is executed and compared with the statement's refuse / still-works table, plus the reduce-only valuation pair (no new borrowing, still counted against liquidation); (B) each of 55 instructions is executed 1 s and 1799 s into a propagated protocol pause (a success must not move any position or vault balance of the group) and at 1800 s / 1801 s with and without re-propagation (verdict must equal the never-paused twin).",
    ref="6 C14"),
